@@ -1065,12 +1065,13 @@ func main() {
 	al := alphabet()
 	small := append(append([]Op{}, al[:9]...), Op{K: "Suicide", A: 1}, Op{K: "AddBalance", A: 1, V: 2}, Op{K: "AddLog", V: 1})
 	if f.Tier == "thorough" {
-		n := exhaustive(c, al, 3, []int{0, 1, 2, 3, 4, 5}, 250, rng.Fork())
-		n += exhaustive(c, small, 4, []int{1, 5}, 600, rng.Fork())
+		n := exhaustive(c, al, 3, []int{1, 2, 3, 5}, 250, rng.Fork())
+		n += exhaustive(c, al, 2, []int{0, 4}, 30, rng.Fork())
+		n += exhaustive(c, small, 4, []int{1}, 600, rng.Fork())
 		rep.Exhaustive = true
-		rep.Note(fmt.Sprintf("exhaustive: %d histories = every prefix+reverted body with |prefix|+|body| <= 3 over the 22-op alphabet on all 6 pre-states, <= 4 over a 12-op alphabet on pre-states 1,5; monitors on all, Coq cases for a sample", n))
+		rep.Note(fmt.Sprintf("exhaustive: %d histories = every prefix+reverted body with |prefix|+|body| <= 3 over the 22-op alphabet on pre-states 1,2,3,5 (<= 2 on 0,4), <= 4 over a 12-op alphabet on pre-state 1; monitors on all, Coq cases for a sample", n))
 	} else {
-		n := exhaustive(c, al, 2, []int{0, 1, 2, 3, 4, 5}, 32, rng.Fork())
+		n := exhaustive(c, al, 2, []int{0, 1, 2, 3, 4, 5}, 45, rng.Fork())
 		m := 0
 		sr := rng.Fork()
 		for ; m < 1000; m++ { // sampled depth-3 histories
